@@ -85,8 +85,9 @@ def split_calls(trace):
             if op.label == "cut":
                 # an attempt cut short: by the attempt timeout (the library then classifies a
                 # TimeoutError) or by cancellation of the whole call
-                if any(r[0] == "classify" and r[1] == "foreign:TimeoutError" for r in c.segs[i]):
-                    op.kind, op.klass, op.label = "x", "T", "x:T"
+                cl = [r for r in c.segs[i] if r[0] == "classify" and r[1] == "foreign:TimeoutError"]
+                if cl:
+                    op.kind, op.klass, op.label = "x", cl[0][2], "x:" + cl[0][2]
                     op.timeout = True
                 else:
                     op.kind = "cancel"
